@@ -49,7 +49,7 @@ CHECKS = {
         design="DESIGN.md §4 C05",
     ),
     "C06": dict(
-        rules="R06.1-R06.4, R05.3",
+        rules="R06.1-R06.5, R05.3",
         what="per-Op agreement of sources()/set_sources()/stolen() and PatchVisitor; borrow flag honoured by code generation; who may create IncRef/DecRef and which visit methods the post-refcount passes override; every emitter that initialises/traverses/clears/recycles instance storage covers the attributes of all classes in base_mro; pass order of compile_scc_to_ir",
         quant="function IR of all compiled programs, on every path",
         technique="sibling cross-check of the three declarations of each Op's operand set; who-may-create rule; CFG ordering of the pass pipeline",
@@ -65,7 +65,7 @@ CHECKS = {
         design="DESIGN.md §4 C07",
     ),
     "C13": dict(
-        rules="R13.1-R13.7",
+        rules="R13.1-R13.8",
         what="blockers never reach the ignore logic; suppressed-by-ignore implies recorded-as-used, only for enabled codes, and nothing else records; decision order of is_error_code_enabled (explicit disable, explicit enable, parent disabled); who may append to the error map; exit status truth table over (message, non-note, blockers, install override) and its data-flow to sys.exit",
         quant="programs x ignore placements x code selections",
         technique="CFG must-pass / reachability, guard chains, who-may-call, abstract evaluation of the exit-status assignments",
@@ -81,7 +81,7 @@ CHECKS = {
         design="DESIGN.md §4 C08",
     ),
     "C14": dict(
-        rules="R14.1-R14.4",
+        rules="R14.1-R14.5",
         what="both front ends can construct the same set of AST node classes; per node class the semantic attributes set at construction agree (branch-sensitive tracking); Errors.report clamps end positions before building ErrorInfo; every statement list that becomes a block went through overload merging in both front ends and the native shortcut rests on a monotone function counter",
         quant="source files without type comments and their corruptions",
         technique="sibling cross-check of the two parser front ends over the resolved constructors; CFG must-pass for the position clamps",
@@ -121,7 +121,7 @@ CHECKS = {
         design="DESIGN.md §4 C20",
     ),
     "C12": dict(
-        rules="R12.1-R12.3",
+        rules="R12.1-R12.4",
         what="operator spelling vs operator applied in the constant folders and IR opcode selection; operator tables vs the language reference; guard completeness of every partial operator in mypy/constant_fold.py and mypyc/irbuild/constant_fold.py",
         quant="signatures, class hierarchies and constant expressions",
         technique="syntax-directed guard-chain analysis and table comparison against the language reference",
